@@ -274,12 +274,18 @@ class FromBaseMapContract(Contract):
         def post(c):
             xs = to_val(c.b["xs"])
             r = to_val(c.result)
-            return [
+            out = [
                 ("lifted:not-a-node", z3.Not(smt.is_VRef(r))),
                 ("C10:lock-tables-only-grow", locks_monotone(c)),
                 ("frame:old-objects", below_alloc_unchanged(c, ("View", "Cell"))),
                 ("alloc", c.post.g["Alloc"] >= c.pre.g["Alloc"]),
             ]
+            if c.mode == "prove":
+                # what the call sites use through the lifted value (meta 'lv' = plain(xs)) and through Inv.node:
+                # element-wise, the result holds a leaf equal to the source item or a fresh family node whose view
+                # is plain(item) - proved against the comprehension's explicit loop (contracts/lang_models.py)
+                out.extend(c.pre.ghost["map_pointwise"](c, r, xs))
+            return out
         return [Case("map", "normal", modifies=mod, post=post,
                      result=lambda c: Z(smt.fresh("fblist"), None,
                                         {"fresh_container": True, "lv": bs.plain(iv(c, c.pre, c.b["xs"])),
